@@ -774,4 +774,11 @@ def aperture_scaled_once(ctx):
     return res
 
 
-RULES = [aperture_scaled_once, c01_insertion, c03_registry, c03_xy_exchange, scale_covers, c04_chief_ray, c01_arg_wiring_rule, c01_init_stores, scale_homogeneous, scale_system, scale_relies_on_thickness_edit, mirror, w_flow, dummy_identity]
+def c17_pol_local_frame(ctx):
+    """shared with C17: describing a surface in a rotated frame must not
+    change polarized intensities"""
+    from .C17 import pol_local_frame as _r
+    return _r(ctx)
+
+
+RULES = [c17_pol_local_frame, aperture_scaled_once, c01_insertion, c03_registry, c03_xy_exchange, scale_covers, c04_chief_ray, c01_arg_wiring_rule, c01_init_stores, scale_homogeneous, scale_system, scale_relies_on_thickness_edit, mirror, w_flow, dummy_identity]
